@@ -134,6 +134,7 @@ pub fn run(job: &Value) {
     let budget = job["budget_words"].as_u64().unwrap_or(100_000);
     let cpu_call = job["cpu_ms_call"].as_u64().unwrap_or(2000);
     let cpu_ctor = job["cpu_ms_ctor"].as_u64().unwrap_or(1000);
+    let cpu_case_ms = job["cpu_ms_case"].as_u64().unwrap_or(30_000);
     let start = job["start"].as_u64().unwrap_or(0) as usize;
     let max_per_kind = job["max_viol_per_kind"].as_u64().unwrap_or(2);
     let profile = job["profile"].as_str().unwrap_or("release").to_string();
@@ -174,7 +175,13 @@ pub fn run(job: &Value) {
             let seed = mix(&[cseed, 1]);
             let mut rng = Mon::new(AnyWords::S(Scripted::plain(seed)));
             let mut call = 0u64;
+            let cpu0 = cpu_ms();
             while call < random_calls {
+                // a case whose calls average more than ~300 us of CPU (1000x the usual) is cut short and reported
+                if call & 0x3ff == 0 && call > 0 && cpu_ms() - cpu0 > cpu_case_ms {
+                    emit(&json!({"ev": "slow", "case_idx": idx, "case": case.to_json(), "profile": profile, "calls": call, "cpu_ms": cpu_ms() - cpu0}));
+                    break;
+                }
                 let before = rng.count;
                 rng.budget = before + budget;
                 set_abcd(seed, u64::MAX, 0, call);
